@@ -43,6 +43,10 @@ def cases(tier, seed):
     out = []
     for res, rot, size in itertools.product(RES, ROT, b["sizes"]):
         out.append(dict(mode="grid", res=res, rot=rot, size=list(size)))
+    # a high-resolution grid (160 m): the Jacobian of the lon/lat mapping is tiny in degrees, the mapping is as regular as ever
+    for rot in ROT[:2]:
+        out.append(dict(mode="grid", res=160.0, rot=rot, size=[12, 10]))
+        out.append(dict(mode="grid", res=160.0, rot=rot, size=[120, 14]))  # ... and the first guess may be 60 cells from the target
     # a grid more than a thousand cells wide: the inverse mapping has to travel hundreds of cells from its first guess
     out.append(dict(mode="grid", res=800.0, rot=30.0, size=[1600, 12]))
     out.append(dict(mode="grid", res=800.0, rot=0.0, size=[14, 1500]))
@@ -148,7 +152,9 @@ def run_grid(case):
                 if np.abs(np.asarray(lo_b) - lo).max() > 1e-9 or np.abs(np.asarray(la_b) - la).max() > 1e-9:
                     bad("xy2ll:ROMS2", "ladim.ROMS2.Grid.xy2ll differs from ladim.ROMS.Grid.xy2ll on the same grid file", sg)
                 errb = np.hypot(np.asarray(X_b) - X, np.asarray(Y_b) - Y)
-                if not (errb < 0.05).all():
+                # the solver stops at a squared lon/lat residual of 1e-7: in cells that is sqrt(1e-7) over the smallest extent of a cell in degrees
+                cell_deg = min(float(np.hypot(np.diff(lon, axis=1), np.diff(lat, axis=1)).min()), float(np.hypot(np.diff(lon, axis=0), np.diff(lat, axis=0)).min()))
+                if not (errb < max(0.05, 2.0 * math.sqrt(1e-7) / cell_deg)).all():
                     kb = int(np.argmax(errb))
                     bad("roundtrip:ROMS2", f"ladim.ROMS2.Grid.ll2xy: position ({X[kb]},{Y[kb]}) comes back as ({np.asarray(X_b)[kb]},{np.asarray(Y_b)[kb]})", sg)
             except BaseException as e:
